@@ -228,6 +228,11 @@ func c18Gen(rt *rapid.T) c18Case {
 		if rapid.IntRange(0, 11).Draw(rt, "widestmt") == 5 {
 			q = c18Wide(rt)
 		}
+		if rapid.IntRange(0, 11).Draw(rt, "remark") == 7 {
+			// what people write after a statement: a remark in one of the usual comment styles, a second
+			// terminator, stray text - with and without a line break behind it
+			q += rapid.SampledFrom([]string{" -- note", " --", "; -- done", " # note", " /* c */", " /* open", " //x", "\n-- note", " -- note\n", ";;", "; ;", " ; select", "\n\n", " -- a -- b", "--"}).Draw(rt, "remark_text")
+		}
 		c.SQL = append(c.SQL, q)
 	}
 	return c
